@@ -20,6 +20,7 @@ ASSUMPTIONS = ["vf/ref/tx_ref.py is the wire format (validated on the BIP143 exa
                "all-empty-witness segwit encodings and zero-input transactions are not well-formed and never generated"]
 OBLIGATIONS = {
     "concurrent_calls": "interleavings of two concurrent calls (single-case checks in two threads, cold and after warm-up calls)",
+    "huge_item": "a script / witness item just beyond a Bitcoin sanity limit (521 B .. 2^25+1 B) round-tripped",
     "history_sequences": "operation sequences (non-initial process states) explored",
     "empty_witness_mixed": "a segwit tx with an empty stack for one input and a non-empty one for another",
     "witness_item_ge_253": "a witness item of >= 253 bytes", "script_ge_253": "a script of >= 253 bytes",
@@ -53,6 +54,7 @@ def _dims():
         "version": [1, 2, 2 ** 32 - 1, 0], "locktime": [0, 499999999, 2 ** 32 - 1],
         "trailing": [0, 1, 2, 3],
         "vout0": [0, 1, 2 ** 32 - 1], "value0": [5000000000, 0, 2 ** 64 - 1],
+        "prevout0": ["normal", "null"],
         "spk0kind": ["filler", "pubkey33", "pubkey65", "p2pkh-text", "p2sh-text", "bech32-text", "bech32m-text"],
     }
 
@@ -198,6 +200,8 @@ def jobs(tier, seed):
         js.append({"name": f"compact/{sh}", "part": "compact", "shard": [sh, 4], "weight": 3})
     js.append({"name": "corpus", "part": "corpus"})
     js.append({"name": "textual", "part": "textual", "weight": 2})
+    for where in ("wit0", "ss0", "spk0"):
+        js.append({"name": f"huge/{where}", "part": "huge", "where": where, "weight": 12})
     from vf.runner import seq_jobs
     js += seq_jobs(3, weight=3)
     from vf.runner import concur_jobs
@@ -255,6 +259,26 @@ def run_job(job):
             acc.check("tx", {"seed": seed, "a": a}, chk_tx)
             if acc.evaluations % 400 == 1:
                 acc.sample(_desc(a))
+    elif job["part"] == "huge":
+        # ONE very large script / witness item, just beyond each constant that Bitcoin software uses as a sanity limit
+        # (element 520, script 10 000, standard tx 100 000, legacy block 1 000 000, block weight 4 000 000, MAX_SIZE 2^25):
+        # the codec has no such limit, and the CompactSize encoding of the length is the 5-byte form throughout
+        from vf.classes import LIMIT_SIZES
+        base = {"segwit": True, "n_in": 1, "n_out": 1, "seq0": "fffffffe", "seqrest": "ffffffff", "ss0": 1, "ssrest": 1, "spk0": 25, "spkrest": 22,
+                "wit0": [72, 33], "witrest": [1], "version": 2, "locktime": 7, "trailing": 0}
+        for n in LIMIT_SIZES:
+            a = dict(base)
+            if job["where"] == "wit0":
+                a["wit0"] = [n, 1]
+            else:
+                a["segwit"] = False
+                a["wit0"] = []
+                a[job["where"]] = n
+            acc.evaluations += 1
+            acc.nontrivial += 1
+            acc.ob("huge_item")
+            acc.check("tx", {"seed": seed, "a": a}, chk_tx)
+        acc.sample({"huge": job["where"], "sizes": LIMIT_SIZES})
     elif job["part"] == "textual":
         for i in range(len(textual_txs())):
             for tr in (0, 1, 4):
